@@ -188,7 +188,11 @@ class Interp:
                 return self.neg(v)
             if isinstance(e.op, ast.USub) and (is_lin(v) or intish(v) or (isinstance(v, tuple) and v and v[0] == "call" and v[1] == ("name", "len"))):
                 return scale(v, -1)
-            return ("neg", v)
+            if isinstance(e.op, ast.UAdd) and (is_lin(v) or intish(v) or is_int(v)):
+                return v                     # +x is x for integers
+            if isinstance(e.op, ast.USub):
+                return ("neg", v)
+            return ("op", type(e.op).__name__, v, None)      # ~x, +<non-integer>: opaque, never confused with negation
         if isinstance(e, ast.BinOp):
             a, b = self.ev(e.left, st), self.ev(e.right, st)
             return self.binop(type(e.op), a, b)
